@@ -151,6 +151,13 @@ def strata(tier):
         r1 = {"path": PC.mkpath([{"p": "prim", "v": "country"}, {"p": "prim", "v": k}]), "cond": PC.L("value", "equal_to", k), "cast": None, "doc_spec": None}
         r2 = {"path": PC.mkpath([{"p": "prim", "v": k}]), "cond": PC.L("value", "in_", [k, "x"]), "cast": None, "doc_spec": k}
         yield {"kind": "yaml", "rules": [r1, r2], "sseed": j, "doc": {"country": {k: k, "zz": 1}, k: "nope"}, "file": j % 2 == 0}
+    # the same rule listed twice (identical entries, entries differing only in doc, with another rule in between)
+    d1 = {"path": PC.mkpath([{"p": "prim", "v": "a"}]), "cond": PC.L("value", "is_instance", {"$type": "int"}), "cast": None, "doc_spec": "first"}
+    d2 = dict(d1, doc_spec="second")
+    d3 = {"path": PC.mkpath([{"p": "prim", "v": "b"}, {"p": "list"}]), "cond": PC.L("value", "less_than", 3), "cast": [["str", "int"]], "doc_spec": None}
+    for j, rl in enumerate(([d1, d1], [d1, d2], [d1, d3, d1], [d3, d3, d2, d1], [d1, d2, d1, d2])):
+        for blk in (False, True):
+            yield {"kind": "yaml", "rules": rl, "sseed": j, "doc": {"a": "x", "b": ["1", 5, "y"]}, "file": j % 2 == 0, "block": blk}
     # multi-line strings (inner blank and whitespace-only lines) as arguments and descriptions, written as block scalars
     ML = ["x\n   \ny\n", "a\n\nb", "  lead\nx\n", "x\n \t\n y", "tr  \nx\n", "\n\nx\n", "one\n", "p\n\n\n\nq"]
     for j, sv in enumerate(ML):
